@@ -37,6 +37,14 @@ Inductive wkind :=
                           (usectx) or the one that delegates with context.Background() *)
 
 (* what the downstream (invoker / handler / next hook / driver) does *)
+(* error SHAPES: how a sentinel sits inside the error the downstream returns.  The call sites
+   classify with errors.Is semantics (errorx.In = errors.Is per candidate): an error matches a
+   sentinel iff the sentinel is somewhere in its chain / tree (Unwrap() error, Unwrap() []error:
+   errors.Join, fmt.Errorf with several %w) or some node's Is method says so (a net timeout error
+   matching context.DeadlineExceeded) - so every shape matches its sentinel. *)
+Inductive eshape := ShWrap2 | ShJoinFirst | ShJoinLast | ShMultiW | ShCustomIs.
+Inductive sentinel := BCanceled | BDeadline | BBreakerUnavailable | BRedisNil | BSqlNoRows | BSqlTxDone.
+
 Inductive derr :=
 | DNil
 | DStatus (code : Z)     (* a gRPC status error with this code (0..16) *)
@@ -58,7 +66,17 @@ Inductive derr :=
 | DWrappedDeadline | DWrappedBreakerUnavailable | DWrappedSqlNoRows | DWrappedSqlTxDone
 (* through the chain Breaker(Timeout(handler)): the handler is still running when the timeout fires
    (UnaryTimeoutInterceptor answers status DeadlineExceeded) / when the client cancels (status Canceled) *)
-| DStallTimeout | DStallCancel.
+| DStallTimeout | DStallCancel
+| DShaped (s : eshape) (b : sentinel).   (* the sentinel b in shape s *)
+
+Definition bare (b : sentinel) : derr :=
+  match b with
+  | BCanceled => DCtxCanceled | BDeadline => DCtxDeadline | BBreakerUnavailable => DBreakerUnavailable
+  | BRedisNil => DRedisNil | BSqlNoRows => DSqlNoRows | BSqlTxDone => DSqlTxDone
+  end.
+
+(* errors.Is semantics: a shaped sentinel is classified like the bare one *)
+Definition canon (d : derr) : derr := match d with DShaped _ b => bare b | _ => d end.
 
 (* gRPC codes: Canceled 1 Unknown 2 DeadlineExceeded 4 ResourceExhausted 8 Unimplemented 12
    Internal 13 Unavailable 14 DataLoss 15 *)
@@ -67,7 +85,7 @@ Definition grpc_failure_code (c : Z) : bool :=
 
 (* codes.Acceptable: status.Code(err) is the code of a status error, OK for nil and
    Unknown for every other error *)
-Definition codes_acceptable (d : derr) : bool :=
+Definition codes_acceptable0 (d : derr) : bool :=
   match d with
   | DStatus c => negb (grpc_failure_code c)
   | DStallTimeout => false      (* status DeadlineExceeded *)
@@ -75,14 +93,14 @@ Definition codes_acceptable (d : derr) : bool :=
   end.
 
 (* serverSideAcceptable *)
-Definition server_acceptable (d : derr) : bool :=
+Definition server_acceptable0 (d : derr) : bool :=
   match d with
   | DCtxDeadline | DBreakerUnavailable | DWrappedDeadline | DWrappedBreakerUnavailable => false
-  | _ => codes_acceptable d
+  | _ => codes_acceptable0 d
   end.
 
 (* redis.go acceptable: nil, redis.Nil, context.Canceled (errors.Is) *)
-Definition redis_acceptable (d : derr) : bool :=
+Definition redis_acceptable0 (d : derr) : bool :=
   match d with
   | DNil | DRedisNil | DWrappedRedisNil | DCtxCanceled | DWrappedCanceled => true
   | _ => false
@@ -90,7 +108,7 @@ Definition redis_acceptable (d : derr) : bool :=
 
 (* commonSqlConn.acceptable: nil, ErrNoRows, ErrTxDone, context.Canceled (errors.Is),
    acceptableError (errors.As), then the WithAcceptable options (pre(err) || acceptable(err)) *)
-Definition sql_acceptable (d : derr) : bool :=
+Definition sql_acceptable0 (d : derr) : bool :=
   match d with
   | DNil | DSqlNoRows | DSqlTxDone | DCtxCanceled | DWrappedCanceled | DSqlAcceptable
   | DWrappedSqlNoRows | DWrappedSqlTxDone => true
@@ -100,8 +118,14 @@ Definition sql_acceptable (d : derr) : bool :=
 
 (* queryRows: func(err) bool { return scanFailed || db.acceptable(err) } - a scan failure is
    the caller's fault, not the database's; isScanFailed excludes DeadlineExceeded *)
-Definition sqlq_acceptable (d : derr) : bool :=
-  match d with DSqlScanFail => true | _ => sql_acceptable d end.
+Definition sqlq_acceptable0 (d : derr) : bool :=
+  match d with DSqlScanFail => true | _ => sql_acceptable0 d end.
+
+Definition codes_acceptable (d : derr) : bool := codes_acceptable0 (canon d).
+Definition server_acceptable (d : derr) : bool := server_acceptable0 (canon d).
+Definition redis_acceptable (d : derr) : bool := redis_acceptable0 (canon d).
+Definition sql_acceptable (d : derr) : bool := sql_acceptable0 (canon d).
+Definition sqlq_acceptable (d : derr) : bool := sqlq_acceptable0 (canon d).
 
 Definition w_acceptable (k : wkind) (d : derr) : bool :=
   match k with
@@ -137,7 +161,7 @@ Definition pass_seen (k : wkind) (d : derr) : seen :=
   | DPanic => SPanic
   | DStallTimeout => SStatus 4
   | DStallCancel => SStatus 1
-  | DBreakerUnavailable | DWrappedBreakerUnavailable =>
+  | DBreakerUnavailable | DWrappedBreakerUnavailable | DShaped _ BBreakerUnavailable =>
     match k with
     | WGrpcServerUnary | WGrpcServerStream | WGrpcServerChain => SStatus 14   (* convertError: errors.Is *)
     | _ => SSame
